@@ -247,6 +247,7 @@ CallBeginF(s, h, rest) ==
             ELSE [tmpl |-> h.tmpl, data |-> base.v] IN
   IF h.tmpl \notin DOMAIN s.prog.bundle THEN NoClaimF(s1)
   ELSE IF IsBad(base) THEN StopF(s1, BadSt(base))
+  ELSE IF base.t \in {"null", "undef"} THEN FailF(s1)     \* no record passed: an error (as SoyExec)
   ELSE IF base.t # "map" THEN NoClaimF(s1)
   ELSE [s1 EXCEPT !.pend = Append(@, pe), !.ctl = h.params \o <<[k |-> "docall"]>> \o rest]
 
